@@ -825,19 +825,19 @@ func init() {
 		Prop: "C02", Name: "coll/index-hasindex",
 		Rule:  collRule + "list/map/tuple x key: in range through five number routes, at len-1/len/len+1/-1/0, fractional, huge (2^31..2^64+1, 1e40), -0/+-Inf, present/absent/other-normal-form/near-miss strings, wrong-typed, null; checks Index, HasIndex, result types and Index succeeds <=> HasIndex true; non-trivial = non-empty and (map with a string key, or sequence with a key within 1 of a bound or non-integral)",
 		Quick: 60000, Thorough: 250000,
-		Gen:   genIndexCase, Check: checkIndex,
+		Gen: genIndexCase, Check: checkIndex,
 	})
 	facet.Register(facet.F[GLCase]{
 		Prop: "C02", Name: "coll/getattr-length",
 		Rule:  collRule + "GetAttr with present (either normal form) / absent names; Length (and LengthInt) of lists, maps, tuples and sets (set length = number of members distinct under the documented equality; a range when number equality is ambiguous); non-trivial = at least one member/attribute",
 		Quick: 50000, Thorough: 200000,
-		Gen:   genGLCase, Check: checkGL,
+		Gen: genGLCase, Check: checkGL,
 	})
 	facet.Register(facet.F[ElemCase]{
 		Prop: "C02", Name: "coll/haselement",
 		Rule:  collRule + "set x element: a member verbatim, a member with its numbers rebuilt through another route, a member with one leaf perturbed, an independent value of the element type, a value of another type; expected membership by reference equality (asserted when the narrowest and the most generous documented number equality agree); non-trivial = non-empty set and element of the element type",
 		Quick: 50000, Thorough: 200000,
-		Gen:   genElemCase, Check: checkElem,
+		Gen: genElemCase, Check: checkElem,
 	})
 }
 
